@@ -13,6 +13,10 @@
 //             ins <name> <face> <cost> | rem <name> <face> | sets <name> <s> | uns <name>
 //             nh <name> | st <name> | fib | sl | rib           (results: canonical, sorted; "ok" for updates)
 //   F nh v|v|...    F st s|s|...    F fib ...    F sl ...    F rib ...      final observation
+//   FR <round> <rec|heavy> <goroutines> <n0>      face-table round: stub faces, n0 = the FaceID the next Add must return
+//   H <goroutine> <inv> <resp> fadd <tok> => <id> | frem <id> => ok | fget <id> => <tok|->      (rec rounds)
+//   A <goroutine> <tok> <id>   D <id>                                                           (heavy rounds)
+//   F faces id=tok;...   F dispatch id=tok;...        FaceTable.Get / dispatch.GetFace for every id >= n0 afterwards
 //   X <text>                             anomaly (panic in an operation, watchdog timeout = possible deadlock)
 //   E
 package conc
@@ -31,6 +35,7 @@ import (
 	"time"
 
 	"github.com/named-data/ndnd/fw/core"
+	"github.com/named-data/ndnd/fw/dispatch"
 	"github.com/named-data/ndnd/fw/face"
 	"github.com/named-data/ndnd/fw/table"
 	enc "github.com/named-data/ndnd/std/encoding"
@@ -256,6 +261,138 @@ func (g *gen) op(names []iname, readShare int) op {
 	}
 }
 
+// faceRound: goroutines register (FaceTable.Add), look up (Get) and tear down (Remove) stub faces concurrently.
+func faceRound(w *bufio.Writer, round int, g *gen, heavy bool) {
+	mk := func() face.LinkService { return face.MakeNullLinkService(face.MakeNullTransport()) }
+	// a sentinel face tells which FaceID comes next
+	s0 := mk()
+	face.FaceTable.Add(s0)
+	n0 := s0.FaceID() + 1
+	face.FaceTable.Remove(s0.FaceID())
+	ngor := []int{2, 3, 4, 8, 12, 16}[g.r.Intn(6)]
+	per := 14 / ngor
+	if per < 1 {
+		per = 1
+	}
+	if heavy {
+		ngor = 8
+		per = 60
+	}
+	type fop struct {
+		kind string
+		tok  uint64
+		f    face.LinkService
+	}
+	tokOf := map[face.LinkService]uint64{}
+	progs := make([][]fop, ngor)
+	tok := uint64(0)
+	for i := range progs {
+		for k := 0; k < per; k++ {
+			switch c := g.r.Intn(10); {
+			case c < 6 || k == 0:
+				tok++
+				f := mk()
+				tokOf[f] = tok
+				progs[i] = append(progs[i], fop{"fadd", tok, f})
+			case c < 8:
+				progs[i] = append(progs[i], fop{kind: "frem"})
+			default:
+				progs[i] = append(progs[i], fop{kind: "fget"})
+			}
+		}
+	}
+	tokStr := func(f face.LinkService) string {
+		if f == nil {
+			return "-"
+		}
+		if t, ok := tokOf[f]; ok {
+			return strconv.FormatUint(t, 10)
+		}
+		return "?"
+	}
+	var clock atomic.Int64
+	type frec struct {
+		inv, resp int64
+		text, res string
+	}
+	recs := make([][]frec, ngor)
+	var wg sync.WaitGroup
+	start := make(chan struct{})
+	for i := 0; i < ngor; i++ {
+		wg.Add(1)
+		go func(i int) {
+			defer wg.Done()
+			var mine []uint64 // ids this goroutine was given and has not removed
+			<-start
+			for _, o := range progs[i] {
+				inv := clock.Add(1)
+				var text, res string
+				switch {
+				case o.kind == "fadd":
+					face.FaceTable.Add(o.f)
+					id := o.f.FaceID()
+					mine = append(mine, id)
+					text, res = "fadd "+strconv.FormatUint(o.tok, 10), strconv.FormatUint(id, 10)
+				case o.kind == "frem" && len(mine) > 0:
+					id := mine[0]
+					mine = mine[1:]
+					face.FaceTable.Remove(id)
+					text, res = "frem "+strconv.FormatUint(id, 10), "ok"
+				case len(mine) > 0:
+					id := mine[len(mine)-1]
+					text, res = "fget "+strconv.FormatUint(id, 10), tokStr(face.FaceTable.Get(id))
+				default:
+					continue
+				}
+				resp := clock.Add(1)
+				recs[i] = append(recs[i], frec{inv, resp, text, res})
+			}
+		}(i)
+	}
+	close(start)
+	wg.Wait()
+	mode := "rec"
+	if heavy {
+		mode = "heavy"
+	}
+	fmt.Fprintf(w, "FR %d %s %d %d\n", round, mode, ngor, n0)
+	nadds := 0
+	for i, rs := range recs {
+		for _, r := range rs {
+			if strings.HasPrefix(r.text, "fadd") {
+				nadds++
+			}
+			if !heavy {
+				fmt.Fprintf(w, "H %d %d %d %s => %s\n", i, r.inv, r.resp, r.text, r.res)
+			} else if strings.HasPrefix(r.text, "fadd ") {
+				fmt.Fprintf(w, "A %d %s %s\n", i, strings.TrimPrefix(r.text, "fadd "), r.res)
+			} else if strings.HasPrefix(r.text, "frem ") {
+				fmt.Fprintf(w, "D %s\n", strings.TrimPrefix(r.text, "frem "))
+			}
+		}
+	}
+	var fb, db []string
+	for id := n0; id < n0+uint64(nadds)+4; id++ {
+		if f := face.FaceTable.Get(id); f != nil {
+			fb = append(fb, strconv.FormatUint(id, 10)+"="+tokStr(f))
+		}
+		if d := dispatch.GetFace(id); d != nil {
+			t := "?"
+			if ls, ok := d.(face.LinkService); ok {
+				t = tokStr(ls)
+			}
+			db = append(db, strconv.FormatUint(id, 10)+"="+t)
+		}
+	}
+	fmt.Fprintf(w, "F faces %s\nF dispatch %s\nE\n", joinSorted(fb), joinSorted(db))
+	// teardown so that the tables do not grow over the run
+	for id := n0; id < n0+uint64(nadds)+4; id++ {
+		if face.FaceTable.Get(id) != nil {
+			face.FaceTable.Remove(id)
+		}
+	}
+}
+
 func TestConc(t *testing.T) {
 	out := os.Getenv("VERIF_OUT")
 	if out == "" {
@@ -293,6 +430,13 @@ func TestConc(t *testing.T) {
 	ms := []int{1, 2, 3}
 
 	for round := 0; round < rounds && time.Since(start) < budget; round++ {
+		if round%5 == 4 {
+			// face-table round: recorded small ones and heavy ones alternate
+			table.CreateFIBTable("nametree")
+			table.VerifResetRib()
+			faceRound(w, round, g, round%10 == 9)
+			continue
+		}
 		impl := "T"
 		m := ms[round%len(ms)]
 		core.GetConfig().Tables.Fib.Hashtable.M = uint16(m)
